@@ -26,7 +26,8 @@ WORKERS = 8
 
 INVARIANTS = ['TypeOK', 'InvModeRules', 'InvNoLateReject', 'InvIdempotent', 'InvAliasKeeps',
               'InvLosesNothing', 'InvDictRoundTrip', 'InvSlotsKeep', 'InvSlotsFormat',
-              'InvFuncSame']
+              'InvFuncSame', 'InvSeqSame']
+KINDS = ('td', 'pd', 'slots', 'func', 'fseq')
 DEVS = ['DevWorkerClass', 'DevKwargsNone']
 
 ALIAS = [('cpu_processes', 'ranks'), ('cpu_threads', 'cores_per_rank'),
@@ -134,6 +135,30 @@ def td_families(tier, rng):
     return fams
 
 
+def mkslot(node, version, box, cfmt, gfmt, cores, gpus, occ, lfs):
+    def res(idx, fmt):
+        return [[i, 4 if fmt == 'int' else occ] for i in idx]
+    return {'node_name': 'n%d' % node, 'node_index': node, 'version': version, 'box': box,
+            'cfmt': cfmt, 'gfmt': gfmt, 'cores': res(cores, cfmt), 'gpus': res(gpus, gfmt),
+            'lfs': lfs, 'mem': lfs}
+
+
+def slot_pool(tier, rng):
+    '''old and new format slots; the spec enumerates every list of length 2 and 3
+       over the pool: each entry independently old or new, in every order'''
+    old = [mkslot(0, 0, 'dict', 'int',  'int',  (0, 1), (0,),   4, 0),
+           mkslot(1, 0, 'dict', 'dict', 'pair', (2, 0), (1, 0), 2, 1),
+           mkslot(0, 0, 'dict', 'ro',   'dict', (3,),   (),     4, 1),
+           mkslot(1, 0, 'dict', 'pair', 'ro',   (1, 2), (1,),   2, 0)]
+    new = [mkslot(1, 1, 'slot', 'int',  'dict', (1, 3), (0,),   4, 1),
+           mkslot(0, 1, 'dict', 'ro',   'ro',   (0, 2), (1, 0), 2, 0),
+           mkslot(0, 1, 'slot', 'ro',   'int',  (2,),   (1,),   2, 0),
+           mkslot(1, 1, 'dict', 'dict', 'dict', (3, 1), (),     4, 1)]
+    if tier == 'quick':
+        return rng.sample(old, 2) + rng.sample(new, 2)
+    return old + new
+
+
 def slot_families(tier, rng):
     second = [{'node_name': 'n1', 'node_index': 1, 'version': 0, 'box': 'dict', 'cfmt': 'int',
                'gfmt': 'int', 'cores': [[1, 4]], 'gpus': [], 'lfs': 0, 'mem': 0},
@@ -142,7 +167,8 @@ def slot_families(tier, rng):
     f = {'nodes': {('n0', 0), ('n1', 1)}, 'versions': {0, 1}, 'boxes': {'dict', 'slot'},
          'cfmts': {'int', 'dict', 'ro', 'pair'}, 'gfmts': {'int', 'dict', 'ro', 'pair'},
          'coreidx': {(), (0,), (2, 0), (0, 1, 3)}, 'gpuidx': {(), (0,), (1, 0)},
-         'occs': {2, 4}, 'lfs': {0, 1}, 'second': S(second)}
+         'occs': {2, 4}, 'lfs': {0, 1}, 'second': S(second),
+         'pool': S(slot_pool(tier, rng)), 'lens': {2, 3}}
     if tier == 'quick':
         f.update({'nodes': {rng.choice([('n0', 0), ('n1', 1)])}, 'lfs': {rng.choice([0, 1])},
                   'coreidx': {(), (2, 0), rng.choice([(0,), (0, 1, 3)])},
@@ -151,21 +177,24 @@ def slot_families(tier, rng):
     return [f]
 
 
-def mc_files(tier, rng, kinds=('td', 'pd', 'slots', 'func'), devs=(), emit=True,
+def mc_files(tier, rng, kinds=KINDS, devs=(), emit=True,
              tdf=None, slf=None, funcs=None):
     tdf = td_families(tier, rng) if tdf is None else tdf
     slf = slot_families(tier, rng) if slf is None else slf
     funcs = R.FUNCS if funcs is None else funcs
     mod = ('---- MODULE MC ----\nEXTENDS Descr\n'
            'MCTDFams == {%s}\nMCSlotFams == {%s}\n'
-           'MCFuncs == %s\nMCArgs == %s\nMCKws == %s\nMCApis == {"class", "decor"}\n====\n'
+           'MCFuncs == %s\nMCArgs == %s\nMCKws == %s\nMCApis == {"class", "decor"}\n'
+           'MCShort == %s\nMCSeqLens == %s\n====\n'
            % (',\n  '.join(tla(f) for f in tdf), ',\n  '.join(tla(f) for f in slf),
-              tla(set(funcs)), tla(set(R.ARGS)), tla(set(R.KWS))))
+              tla(set(funcs)), tla(set(R.ARGS)), tla(set(R.KWS)), tla(set(R.SHORT)),
+              tla({2, 3} if tier == 'quick' else {2, 3, 4})))
     cfg = 'CONSTANTS\n'
     for d in DEVS:
         cfg += ' %s = %s\n' % (d, 'TRUE' if d in devs else 'FALSE')
     cfg += (' Kinds = %s\n TDFams <- MCTDFams\n SlotFams <- MCSlotFams\n Funcs <- MCFuncs\n'
-            ' ArgIds <- MCArgs\n KwIds <- MCKws\n Apis <- MCApis\n Emit = %s\n'
+            ' ArgIds <- MCArgs\n KwIds <- MCKws\n Apis <- MCApis\n ShortFuncs <- MCShort\n'
+            ' SeqLens <- MCSeqLens\n Emit = %s\n'
             % (tla(set(kinds)), tla(bool(emit))))
     cfg += 'SPECIFICATION Spec\nCHECK_DEADLOCK FALSE\n'
     for i in INVARIANTS:
@@ -221,6 +250,8 @@ def classify(kind, inp, clause, infos):
     if c == 'AliasKeeps':
         return ['deprecated attribute %s -> %s' % (d, n) for d, n in ALIAS
                 if 'I.alias.' + d in infos]
+    if kind == 'fseq':
+        return ['short-lived callables encoded one after the other (%s)' % inp['api']]
     if kind == 'func':
         if 'I.func.kwargs_none' in infos:
             return ['PythonTask(func[, args]) without kwargs: kwargs is shipped as None']
@@ -228,6 +259,10 @@ def classify(kind, inp, clause, infos):
     if kind == 'slots':
         fm = sorted(set('%s:%s/%s' % ('new' if s['version'] else 'old', s['cfmt'], s['gfmt'])
                         for s in inp))
+        mixed = len(set(bool(s['version']) for s in inp)) > 1
+        first = ('new' if inp[0]['version'] else 'old') if inp else ''
+        if mixed:
+            return ['mixed-format slot list, first entry %s format' % first]
         return ['slot list ' + ','.join(fm)]
     if kind == 'pd':
         return ['pilot description']
@@ -253,6 +288,10 @@ def required_classes():
             'K.slots.box.dict', 'K.func.outcome.ret', 'K.func.outcome.raise'}
     req |= {'K.slots.%s.%s.old' % (r, f) for r in 'cg' for f in ('int', 'dict', 'ro', 'pair')}
     req |= {'K.slots.%s.%s.new' % (r, f) for r in 'cg' for f in ('int', 'dict', 'ro')}
+    req |= {'K.slots.mixed.oldfirst', 'K.slots.mixed.newfirst', 'K.slots.mixed.len.2',
+            'K.slots.mixed.len.3', 'K.slots.len.3'}
+    req |= {'K.fseq.%s.len.%d' % (a, n) for a in ('class', 'decor') for n in (2, 3)}
+    req |= {'K.fseq.f.' + f for f in R.SHORT}
     req |= {'K.func.%s.%s' % (a, f) for a in ('class', 'decor') for f in R.FUNCS}
     req |= {'K.func.a.' + a for a in R.ARGS}
     req |= {'K.func.k.%s.%s' % (a, k) for a in ('class', 'decor') for k in R.KWS}
@@ -281,8 +320,9 @@ def report(chk, items, traces, errs):
                 raise Machinery('monitor could not read a trace: %s %s' % (e, tr))
             elif e.split('.')[0] == chk.pid:
                 for cls in classify(kind, inp, e, infos) or ['unclassified']:
-                    chk.violation(e, cls, 'real code violates %s on %s input %s'
-                                  % (e, kind, json.dumps(inp, sort_keys=True)[:400]),
+                    chk.violation(e, cls, 'real code violates %s on %s input %s%s'
+                                  % (e, kind, json.dumps(inp, sort_keys=True)[:400],
+                                     (' [%s]' % ','.join(sorted(infos))) if infos else ''),
                                   {'rig': 'descr', 'kind': kind, 'inp': inp, 'errs': es,
                                    'trace': tr})
     return seen
@@ -339,7 +379,9 @@ def run(chk, tier, seed):
             if k == kind and len(tr['events']) > 3:
                 chk.sample({'kind': k, 'inp': inp, 'events': tr['events'][:3]})
                 break
-    n = {k: sum(1 for kk, _ in items if kk == k) for k in ('td', 'pd', 'slots', 'func')}
+    n = {k: sum(1 for kk, _ in items if kk == k) for k in KINDS}
+    n['mixed-format slot lists'] = sum(
+        1 for kk, i in items if kk == 'slots' and len(set(bool(s['version']) for s in i)) > 1)
     chk.notes.append('inputs enumerated by TLC and replayed on the real code: %s' % n)
     chk.assumptions += [
         'attribute values range over 0/1/2 and ""/"a"/"b" (and None for mode): _verify only '
